@@ -4,7 +4,7 @@
 # (3) the repository's test suite passes with the patch. Leaves /tmp/vwt clean. Prints a summary line.
 set -u
 id="$1"; dir="$2"
-wt=/tmp/vwt
+wt="${WT:-/tmp/vwt}"
 export CARGO_NET_OFFLINE=true
 cd "$wt" || exit 2
 git checkout -q -- . ; git clean -fdq -e target
